@@ -265,12 +265,27 @@ def check_history_case(case):
     from pyModelChecking.BDD import OBDD
     seed, steps, nvars = case
     rng = random.Random(seed)
-    vs = ['a', 'b', 'c', 'd'][:nvars]
+    # (odd seeds use multi-character names: one-character strings are singletons in CPython, longer ones are not,
+    #  and the table must compare variable names by VALUE)
+    vs = (['a', 'b', 'c', 'd'] if seed % 2 == 0 else ['va', 'vb', 'vc', 'vd'])[:nvars]
     order = list(vs)
     rng.shuffle(order)
     pool = []       # (obdd, table)
     fails = []
     log = []
+
+    def rebuilt(node, memo):
+        # the same diagram, bottom-up through the public node constructor, with EQUAL BUT DISTINCT str objects as names
+        from pyModelChecking.BDD import BDDNode
+        if id(node) in memo:
+            return memo[id(node)]
+        if not hasattr(node, 'var'):
+            r = BDDNode(node.value)
+        else:
+            name = (node.var + '_')[:-1]
+            r = BDDNode(name, rebuilt(node.low, memo), rebuilt(node.high, memo))
+        memo[id(node)] = r
+        return r
 
     def bad(kind, what):
         fails.append((kind, '%s [seed %d, ordering %r, after %d steps: %s]' % (what, seed, order, len(log), ' ; '.join(log[-6:]))))
@@ -304,6 +319,10 @@ def check_history_case(case):
             t = tuple(tx[idx[tuple(sorted(dict(a, **{v: b}).items()))]] for a in asg)
             pool.append((x.restrict(v, b), t))
             log.append('restrict %s=%s' % (v, b))
+        elif k < 0.86:
+            x, tx = rng.choice(pool)
+            pool.append((OBDD(rebuilt(x.root, {}), list(order)), tx))
+            log.append('rebuild through BDDNode(var, low, high) with fresh name objects')
         elif k < 0.93:
             for _ in range(rng.randint(1, max(1, len(pool) // 2))):
                 if pool:
